@@ -3,6 +3,7 @@ package core
 import (
 	"fmt"
 	"go/constant"
+	"path/filepath"
 	"go/token"
 	"go/types"
 	"math/big"
@@ -359,6 +360,9 @@ func (x *Exec) block(fr *frame, b *ssa.BasicBlock, s *State) {
 			rv := make([]Value, len(in.Results))
 			for i, r := range in.Results {
 				rv[i] = x.operand(fr, s, r)
+			}
+			if !fr.inline {
+				x.atReturn(fr, s, rv)
 			}
 			fr.returns = append(fr.returns, edge{st: s, cond: s.Reach, from: b})
 			fr.retVals = append(fr.retVals, rv)
@@ -1163,7 +1167,7 @@ func (x *Exec) typeAssert(fr *frame, s *State, in *ssa.TypeAssert) {
 }
 
 // elemInfo describes the element type and stride of an indexable.
-func (x *Exec) stride(elem types.Type) int64 { return x.E.size(elem) }
+func (x *Exec) stride(elem types.Type) int64 { return x.E.strideOf(elem) }
 
 func (x *Exec) idx64(fr *frame, s *State, v ssa.Value) Term {
 	i := x.operand(fr, s, v)
@@ -1699,5 +1703,38 @@ func (x *Exec) atSend(fr *frame, s *State, sent Value, pos token.Pos) {
 		ac.Hits++
 		x.obligeKnown(env, fmt.Sprintf("%s#atsend%d.%d", x.C.Unit, k, x.bump(fr, fmt.Sprintf("atsend%d", k))), "atsend",
 			x.pos(pos), "before the send: "+ac.Text, s.Reach, env.evalBool(ac.Expr))
+	}
+}
+
+// atReturn checks "atreturn" region postconditions at a return site (results are
+// bound as in ensures clauses; sites where a named local is not in scope are skipped).
+func (x *Exec) atReturn(fr *frame, s *State, rv []Value) {
+	if fr.contract == nil {
+		return
+	}
+	for k, ac := range fr.contract.AtCalls {
+		if ac.Callee != "<return>" {
+			continue
+		}
+		env := x.invEnv(fr, s)
+		bindResults(env.names, fr.fn.Signature, rv)
+		prop, ok := func() (t Term, ok bool) {
+			defer func() {
+				if r := recover(); r != nil {
+					if u, isU := r.(unsupported); isU && strings.Contains(u.msg, "unknown identifier") {
+						ok = false
+						return
+					}
+					panic(r)
+				}
+			}()
+			return env.evalBool(ac.Expr), true
+		}()
+		if !ok {
+			continue
+		}
+		ac.Hits++
+		x.obligeKnown(env, fmt.Sprintf("%s#atreturn%d.%d", x.C.Unit, k, x.bump(fr, fmt.Sprintf("atreturn%d", k))), "atreturn",
+			fmt.Sprintf("%s:%d", filepath.Base(ac.File), ac.Line), "at the return: "+ac.Text, s.Reach, prop)
 	}
 }
